@@ -26,7 +26,7 @@ for d in sorted(glob.glob(os.path.join(V, "seeded", "*"))):
     if detected:
         m = re.search(r"signature: (.*)$", detected[-1])
         sig = m.group(1) if m else ""
-    confirmed = cf.get("demo_rc_without_patch") == 0 and cf.get("demo_rc_with_patch") not in (0, -1, None) and cf.get("suite_pass_fail_with_patch") in ("234 0", "235 0")
+    confirmed = cf.get("demo_rc_without_patch") == 0 and cf.get("demo_rc_with_patch") not in (0, -1, None) and (lambda x: bool(x) and x.split()[1] == "0" and int(x.split()[0]) >= 234)(cf.get("suite_pass_fail_with_patch"))
     meta = {
         "id": sid,
         "property": prop,
